@@ -101,6 +101,10 @@ func genEndPlan(seed uint64, thorough bool) *Plan {
 			mode := g.pick("", "TIMEOUT", "ERROR")
 			t = append(t, Item{Args: bs(bcmd("q", g.pick("0", "100"))...), Tag: "unblocked:" + mode})
 			a = append(a, Item{Op: "await-blocked", N: 0})
+			if g.chance(3) {
+				// (connections are addressed by id, whatever database either side has selected)
+				a = append(a, cmdItem("SELECT", g.pick("1", "0", "7")))
+			}
 			ub := []string{"CLIENT", "UNBLOCK", "$id:0"}
 			if mode != "" {
 				ub = append(ub, mode)
